@@ -548,7 +548,7 @@ impl Property for C19 {
         "exploration"
     }
     fn rule(&self) -> String {
-        "decider picks a generator (random circuit incl. presets, hidden shift, Pauli gadget, equatorial stabiliser state; surface-code builder as the unseeded control), admissible parameters and a seed; the object is built (i) twice on fresh builders with the ambient-RNG and hash-order seams installed (ambient draws and randomised-map creations must be 0 during a seeded build), (ii) on another OS thread, (iii) for a fraction in a child process (other RandomState keys, ASLR, OS entropy), and compared structurally; then the promises are checked: parameter conformance, |<shift|C|0>|^2 = 1 exactly by the gate simulator, squared norm 1 exactly by the ZX evaluator, gadget structure. Non-trivial: >=5 gates / >=3 spiders and the two neighbouring seeds give different objects. Distinct by (scenario digest, event digest).".into()
+        "decider picks a generator (random circuit incl. presets, hidden shift, Pauli gadget, equatorial stabiliser state; surface-code builder as the unseeded control), admissible parameters and a seed; the object is built (i) twice on fresh builders with the ambient-RNG and hash-order seams installed (ambient draws and randomised-map creations must be 0 during a seeded build), (ii) on another OS thread, (iii) for a fraction in a child process (other RandomState keys, ASLR, OS entropy), (i') on a builder with a past - seeded again with the same seed after its first batch, or used before under another seed (same parameters / full-weight gadgets / a larger register), (i'') as a task of a worker of a 2..4-thread rayon pool (a third of the runs), and compared structurally; stabiliser states up to 140 qubits (structural norm oracle: squared norm = |scalar|^2 * 2^(n-E) exactly), gadget circuits up to 139 qubits x 800 gadgets, weight ranges that reach the whole register; then the promises are checked: parameter conformance, |<shift|C|0>|^2 = 1 exactly by the gate simulator, squared norm 1 exactly by the ZX evaluator, gadget structure. Non-trivial: >=5 gates / >=3 spiders and the two neighbouring seeds give different objects. Distinct by (scenario digest, event digest).".into()
     }
     fn assumptions(&self) -> Vec<String> {
         vec![
